@@ -213,6 +213,9 @@ func (f *Failover) Get(
 		keyLock.err = unexpectedBackendError
 
 		return nil, unexpectedBackendError // Cache backend failed with unexpected error.
+	} else {
+		// Keeping overly stale value (if any) to serve it in case of update failure.
+		value = val
 	}
 
 	// Check if update failed recently.
@@ -284,7 +287,7 @@ func (f *Failover) valueFromError(err error) (interface{}, bool, error) {
 			return errExpired.Value(), true, nil
 		}
 
-		return nil, false, nil
+		return errExpired.Value(), false, nil
 	}
 
 	if errors.Is(err, ErrNotFound) {
